@@ -109,3 +109,62 @@ def ecdsa_valid(r, s, q, z):
     if rr is None:
         return False
     return rr[0] % N == r
+
+
+def sqrt_candidate(c):
+    """c**((p+1)/4) mod p: a square root of c when c is a quadratic residue (p = 3 mod 4; lemma sqrt_3mod4)."""
+    return pow(c, (P + 1) // 4, P)
+
+
+def sec1_decode(b):
+    """SEC 1 section 2.3.4 octet-string-to-point for secp256k1; None when b does not encode a curve point."""
+    if len(b) == 65 and b[0] == 4:
+        x = int.from_bytes(b[1:33], "big")
+        y = int.from_bytes(b[33:65], "big")
+        if x < P and y < P and on_curve(x, y):
+            return (x, y)
+        return None
+    if len(b) == 33 and (b[0] == 2 or b[0] == 3):
+        x = int.from_bytes(b[1:33], "big")
+        if x >= P:
+            return None
+        c = (x * x * x + 7) % P
+        y = sqrt_candidate(c)
+        if y % 2 != b[0] % 2:
+            y = (P - y) % P
+        if y % 2 != b[0] % 2:
+            return None     # only possible for y == 0, which is not on this curve (lemma no_two_torsion)
+        if (y * y) % P != c:
+            return None     # c is not a quadratic residue: no point with this x
+        return (x, y)
+    return None
+
+
+def sec1_encode(x, y, compressed):
+    if compressed:
+        return bytes([2 + y % 2]) + x.to_bytes(32, "big")
+    return b"\x04" + x.to_bytes(32, "big") + y.to_bytes(32, "big")
+
+
+@uf("bytes -> bool")
+def sec1_ok(b):
+    """b is the SEC1 encoding (compressed or uncompressed) of a curve point."""
+    return sec1_decode(b) is not None
+
+
+@uf("bytes -> int")
+def sec1_x(b):
+    r = sec1_decode(b)
+    return 0 if r is None else r[0]
+
+
+@uf("bytes -> int")
+def sec1_y(b):
+    r = sec1_decode(b)
+    return 0 if r is None else r[1]
+
+
+@uf("int,int,int,int,int -> bool")
+def ecdsa_ok(r, s, qx, qy, z):
+    """ecdsa_valid as a predicate symbol (unfolded where it is proved, opaque where it is only passed on)."""
+    return ecdsa_valid(r, s, (qx, qy), z)
